@@ -43,6 +43,7 @@ Inductive mscase :=
 | MS (c : mcfg) (inp : string) (obs : verdict) (big : bool)
 | KClock (after before offset unix : Z) (obs : verdict)       (* raw seconds as parsed, before normalisation *)
 | KIp (cidrs : list (bool * Z * Z)) (a : option (bool * Z * bool)) (obs : verdict)
+| KNotIp (cidrs : list (bool * Z * Z)) (a : option (bool * Z * bool)) (obs : verdict)   (* not { remote_ip ... } *)
 | KRefS4 (cmds ports : list Z) (cidrs : list (bool * Z * Z)) (vn cd : Z) (port ip : Z) (user : string) (inp : string) (ref : bool)
 | KRefS5 (auth : list Z) (ver : Z) (methods : string) (inp : string) (ref : bool)
 | KRefPg (ssl : bool) (major minor : Z) (params : list (string * string)) (inp : string) (ref : bool).
@@ -68,6 +69,8 @@ Definition check (c : mscase) : bool :=
       verdict_eqb (fst r) obs && Bool.eqb (alloc_bound <? snd r)%N big
   | KClock a b off unix obs => verdict_eqb (clock_match (clock_provision a b) (clock_now unix off)) obs
   | KIp cidrs a obs => verdict_eqb (ip_match (map mk_cidr cidrs) (option_map mk_addr a)) obs
+  | KNotIp cidrs a obs =>
+      verdict_eqb (not_match [[fun _ => ip_match (map mk_cidr cidrs) (option_map mk_addr a)]] []) obs
   | KRefS4 cmds ports cidrs vn cd port ip user inp ref =>
       let m := {| s4_vn := byte_ofZ vn; s4_cd := byte_ofZ cd; s4_port := Z.to_N port; s4_ip := Z.to_N ip; s4_user := unhex user |} in
       let cfg := {| s4_commands := map Z.to_N cmds; s4_ports := map Z.to_N ports; s4_cidrs := map mk_cidr cidrs |} in
